@@ -9,7 +9,7 @@ from ..selftest import Mutant
 
 ID = "C36"
 TECHNIQUE = "writer/reader literal-table extraction and comparison (K6) over refs.py, mapping.py, urls.py (ast) and crates/git/src/lib.rs (Rust-lite)"
-FLOOR = 12
+FLOOR = 17
 RF = "breezy/git/refs.py"
 MP = "breezy/git/mapping.py"
 UR = "breezy/git/urls.py"
